@@ -371,7 +371,8 @@ func (w *World) StubFor(endpoint string) *Stub {
 func (w *World) EnablePreemption(seed uint64) {
 	w.Sc.SeedPreemption(seed)
 	w.Sc.PreemptSites = func(site string) bool {
-		return strings.HasPrefix(site, "upstream_controller.go") || strings.HasPrefix(site, "clusterinfo.go")
+		return strings.HasPrefix(site, "upstream_controller.go") || strings.HasPrefix(site, "clusterinfo.go") ||
+			strings.HasPrefix(site, "tokenreview.go") || strings.HasPrefix(site, "subjectaccessreview.go")
 	}
 }
 
